@@ -662,6 +662,8 @@ pub fn run_libfuzzer(
         violations: vec![],
         infra_errors: vec![],
     };
+    // (VERIF_FUZZ_RUNS shortens a campaign while working on the harness; the registered commands do not set it)
+    let runs_per_job = std::env::var("VERIF_FUZZ_RUNS").ok().and_then(|s| s.parse::<u64>().ok()).unwrap_or(runs_per_job);
     let fuzz_dir = PathBuf::from(verif_dir()).join("fuzz");
     let target_dir = fuzz_dir.join("target");
     let build = Command::new("cargo")
